@@ -182,7 +182,8 @@ def rand_template(rng):
             items.append(('val', rng.choice([0, 1, 2, 3, 0.5, 2.5, 'a', 'hello'])))
         else:
             items.append(('fn', rng.choice(['is_num', 'is_str', 'gt2', 'even',
-                                            'always', 'never'])))
+                                            'always', 'never', 'not3', 'falsy',
+                                            'lt5', 'gt2', 'not3'])))
     return items
 
 
@@ -196,7 +197,8 @@ def args_for_template(rng, template):
             out.append(it[1])
         else:
             out.append({'is_num': 3, 'is_str': 'a', 'gt2': 7, 'even': 4,
-                        'always': 1, 'never': 1}[it[1]])
+                        'always': 1, 'never': 1, 'not3': 4, 'falsy': 0,
+                        'lt5': 2}[it[1]])
     return out
 
 
